@@ -106,6 +106,25 @@ def build_harness():
     open(os.path.join(BUILD, 'harness.view'), 'w').write(view)
     stamp_set('harness', dig)
 
+def build_harness_cov():
+    """the same harness, the core compiled by clang with edge and comparison tracing (harness/cov.c); -> exe or None"""
+    dig = file_hash(repo_sources() + harness_sources()); exe = os.path.join(BUILD, 'vharness_cov')
+    if stamp_ok('harness_cov', dig): return exe if os.path.exists(exe) else None
+    inc = os.path.join(REPO, 'lltdResponder')
+    base = ['clang', '-O1', '-g', '-fsanitize=address,undefined', '-fno-sanitize-recover=all', '-DLLTD_VERIF', '-w', '-I' + inc, '-I' + os.path.join(VERIF, 'harness'), '-I' + BUILD]
+    flags = (['-DNO_FLOW'] if harness_flow() == '0' else []) + (['-DVIEW_AUTOMATA=0'] if harness_view() == '0' else [])
+    objs = []; ok = True
+    for f in [os.path.join(inc, c) for c in CORE] + [os.path.join(REPO, 'os/esp32/daemon/lltd_esp32.c')]:
+        o = os.path.join(BUILD, 'cov_' + os.path.basename(f)[:-2] + '.o'); objs.append(o)
+        rc, out = sh(base + ['-fsanitize-coverage=trace-pc-guard,trace-cmp', '-c', f, '-o', o])
+        if rc != 0: ok = False; break
+    if ok:
+        rc, out = sh(base + flags + ['-DVCOV', '-o', exe, os.path.join(VERIF, 'harness/vharness.c'), os.path.join(VERIF, 'harness/flow_shim.c'), os.path.join(VERIF, 'harness/cov.c')] + objs)
+        ok = rc == 0
+    if not ok and os.path.exists(exe): os.remove(exe)
+    stamp_set('harness_cov', dig)
+    return exe if ok else None
+
 def harness_flow():
     """'1' if the Darwin frame flow and tick wiring could be sliced out of darwin-main.c"""
     try: return open(os.path.join(BUILD, 'harness.flow')).read().strip()
